@@ -15,7 +15,9 @@ META = {
                   'over trees of lists/dicts are compared with the real containers after every call.',
     'level_note': 'The reference is validated against the builtin containers in the same run (a disagreement is a machinery '
                   'failure, exit 2).  MISSING written into a *list*, container methods under disabled accessors and int keys '
-                  'in rebind paths are not generated.  Keys are concretised as plain str / str with dot / digits-only str / int.',
+                  'in rebind paths are not generated.  Keys are concretised as plain str / str with dot / digits-only str / int; dict '
+                  'values include None and 0.  The documented rebind extension is checked for every pair of index entries '
+                  '(replace / delete / insert) on a 12-element list (one- and two-digit indices; RebindLaw).',
 }
 
 CLAUSES = {'content', 'outcome', 'ret'}
